@@ -179,6 +179,7 @@ def check(run):
         reloadcheck.family(run, drv, scratch, 24 if quick else 200)
         # real concurrent processes
         process_family(run, rng, scratch, 2 if quick else 12)
+        edge_values_family(run, scratch)
         if drv is not None and run.corr_disagreements == 0:
             run.obligation('correspondence: %d loads of the real jug.init gave the task list and barrier flag of the model' % run.corr_programs, True)
     finally:
@@ -400,3 +401,63 @@ def replay(path):
     print(d['replay'].get('program', ''))
     print({k: v for k, v in d['replay'].items() if k != 'program'})
     return 1
+
+
+EDGE_JUGFILE = '''import os
+from jug import TaskGenerator, barrier, bvalue
+HERE = os.path.dirname(os.path.abspath(__file__))
+def mark(s):
+    with open(os.path.join(HERE, 'marks.log'), 'a') as f:
+        f.write(s + '\\n')
+@TaskGenerator
+def good(x):
+    return x + 1
+@TaskGenerator
+def nothing(x):
+    return None                 # a task that is run for its effect: its stored value is None
+@TaskGenerator
+def unstorable(x):
+    return (lambda: x)          # the value cannot be pickled: storing the result fails
+a = good(1)
+n = nothing(a)
+v = bvalue(n)                   # a finished task whose value is None: bvalue returns None, it does not stop the file
+mark('after-bvalue-of-None %r' % (v,))
+b = good(10 if v is None else 20)
+%(bad)s
+'''
+
+
+def edge_values_family(run, scratch):
+    """real `jug execute` / `jug check` on jugfiles whose barrier phases hinge on unusual results: bvalue() of a task whose value is None (a finished task:
+    the value None is returned and loading goes on), and a task before a barrier whose result cannot be stored (execute reports the failure, nothing is
+    published for it, the barrier stays closed, `jug check` says unfinished)"""
+    common = ['--will-cite', '--nr-wait-cycles', '2', '--wait-cycle-time', '0']
+    for variant in ('none-value', 'unstorable-before-barrier'):
+        d = os.path.join(scratch, 'edge-' + variant)
+        os.makedirs(d)
+        bad = '' if variant == 'none-value' else "u = unstorable(b)\nbarrier()\nmark('after-barrier')\nc = good(30)\n"
+        open(os.path.join(d, 'jugfile.py'), 'w').write(EDGE_JUGFILE.replace('%(bad)s', bad))
+        rp = {'kind': 'edge-values', 'variant': variant}
+        run.case(('edge-values', variant), nontrivial=True)
+        run.count('edge_value_histories')
+        ex = L.jug_cli(['execute', 'jugfile.py'] + common + (['--keep-going'] if variant != 'none-value' else []), d)
+        ex2 = L.jug_cli(['execute', 'jugfile.py'] + common, d)
+        chk = L.jug_cli(['check', 'jugfile.py', '--will-cite'], d)
+        try:
+            marks = open(os.path.join(d, 'marks.log')).read().split('\n')
+        except IOError:
+            marks = []
+        if variant == 'none-value':
+            if ex.returncode != 0 or chk.returncode != 0:
+                run.fail('bvalue-of-none-stops', 'a jugfile with v = bvalue(t) where the finished task t has the value None: `jug execute` exits %d, a second one %d, `jug check` then %d (the '
+                         'loading never gets past bvalue although its task is complete): %s' % (ex.returncode, ex2.returncode, chk.returncode, ex.stdout[-300:]), rp)
+            elif not any(m.startswith('after-bvalue-of-None None') for m in marks):
+                run.fail('bvalue-of-none-value', 'bvalue(t) of a finished task whose value is None handed out %s' % [m for m in marks if m.startswith('after-bvalue')][-1:], rp)
+        else:
+            if ex.returncode == 0:
+                run.fail('unstorable-result-exit-status', '`jug execute --keep-going` exits 0 although the result of a task could not be stored: %s' % ex.stdout[-300:], rp)
+            if 'after-barrier' in marks:
+                run.fail('barrier-opens-after-failed-store', 'the result of a task before a barrier could not be stored (its value cannot be pickled), yet a later load of the jugfile ran the statements after the barrier', rp)
+            if chk.returncode == 0:
+                run.fail('check-reports-complete', 'the result of a task before a barrier could not be stored, yet `jug check` exits 0', rp)
+        core.rm_rf(d)
